@@ -63,7 +63,7 @@ end hybrid.Storage
 
 namespace Skel
 def Storage_AppendToList : List String := ["lockKey", "getList", "getCategory", "setLocked"]
-def Storage_Delete : List String := ["getCategory", "lockKey", "getCacheForKey", "cache.Delete", "cache.Delete", "persistent.Delete", "cache.Delete", "persistent.Delete"]
+def Storage_Delete : List String := ["lockKey", "getCategory", "getCacheForKey", "cache.Delete", "cache.Delete", "persistent.Delete", "cache.Delete", "persistent.Delete"]
 def Storage_DeleteHash : List String := ["cacheTierFor().Delete", "cacheTierFor"]
 def Storage_Exists : List String := ["getCategory", "getCacheForKey", "cache.Exists", "cache.Exists", "persistent.Exists", "cache.Exists", "persistent.Exists"]
 def Storage_Get : List String := ["get"]
@@ -72,7 +72,7 @@ def Storage_GetList : List String := ["getList"]
 def Storage_Incr : List String := ["IncrBy"]
 def Storage_IncrBy : List String := ["cacheTierFor", "counter.IncrBy", "lockKey", "cache.Get", "cache.Set"]
 def Storage_RemoveFromList : List String := ["lockKey", "getList", "getCategory", "setLocked"]
-def Storage_Set : List String := ["getCategory", "lockKey", "setLocked"]
+def Storage_Set : List String := ["lockKey", "setLocked"]
 def Storage_SetExpiration : List String := ["lockKey", "cacheTierFor", "cache.Get", "cache.Set"]
 def Storage_SetHash : List String := ["cacheTierFor().Set", "cacheTierFor"]
 def Storage_SetNX : List String := ["cacheTierFor", "nxSetter.SetNX", "cache.Exists", "cache.Set"]
